@@ -112,6 +112,19 @@ pub fn step(ctx: &Ctx, w: &World, ev: &mut Ev) {
             if ctx.delta(&fpool) != 0 || to_fp != 0 || trader_to_if != 0 {
                 ev.violation("no_fee_op", kind, json!({"fee_pool_delta": ctx.delta(&fpool).to_string(), "wallet_to_insurance_fund": trader_to_if.to_string()}));
             }
+            // a partial liquidation splits the penalty in halves between the liquidator and the insurance fund: whatever
+            // the fund receives from the vault beyond the liquidator's half is a charge on top of the penalty - a fee
+            if let Op::Liquidate { vamm, trader, .. } = &ctx.step.op {
+                let t = w.resolve(trader);
+                let partial = ctx.post.position(*vamm, &t).map(|p| p.size != 0).unwrap_or(false);
+                if partial && actor != ifund && actor != t {
+                    let to_liq = ctx.sent(&w.addrs.engine, &actor);
+                    let to_fund = ctx.sent(&w.addrs.engine, &ifund);
+                    if to_fund > to_liq {
+                        ev.violation("no_fee_op", "Liquidate,partial_fund_gets_more_than_half", json!({"vault_to_insurance_fund": to_fund.to_string(), "vault_to_liquidator": to_liq.to_string()}));
+                    }
+                }
+            }
         }
         _ => {}
     }
